@@ -74,6 +74,10 @@ CLAIMED = {
             'The consteval 30x30 dependency LUT is read from clang and, for each of its 465 upper-triangle cells, the classes that dispatch_depends casts t1/t2 to in the selected case are compared with the classes deserialize_transition builds for those two types; the dispatcher is checked to report equal actors dependent, unwrap ANY transitions and index the table with the smaller type as row (so that only the defined triangle is read, which makes the relation symmetric by construction); every action reachable on the diagonal must be invariant under swapping t1 and t2.',
             'Does not decide that pairs declared independent really commute (that is a property of the kernel semantics).',
             'DESIGN.md §3 C39'),
+    'C31': ("finite abstract evaluation of each kernel branch's element statement (orderings / truth pairs / compound operator), table extraction and agreement (op->kernel, datatype->C type size, allowed flags->branches) from clang AST/CFG and constant evaluator",
+            'All 14 predefined operator globals and all ~60 predefined datatype globals are read from the source with their constant-folded flag masks and sizes; every branch of every kernel is decoded from the CFG (datatype test, C element type, loop bounds 0..*length-1, element statement) and the statement is evaluated exhaustively on the finite domain that determines the MPI result (3 orderings for MAX/MIN, 9 orderings of (value,index) for MAXLOC/MINLOC with ties to the lowest index, 4 truth pairs for LAND/LOR/LXOR, the compound operator for SUM/PROD/BAND/BOR/BXOR with complex products required to use a complex C type, memcpy for REPLACE, empty NO_OP); sizeof(C type) must equal the registered datatype size; every (op, datatype) CHECK_OP accepts must have a branch; chains end in a no-return rejection. ~1500 obligations covering every (operator, datatype) pair rather than the SUM-on-int cases the tests run.',
+            'NaN/unordered floats and integer overflow are not modelled; user-defined operators and derived datatypes are outside the statement; rejection by abort (xbt_die) in the final else counts as rejection only for pairs CHECK_OP does not accept.',
+            'DESIGN.md §3 C31'),
 }
 
 NOT_APPLICABLE = {
